@@ -458,7 +458,7 @@ def judge_comp(case, acc):
         prob.model.add_subsystem('c', comp)
         prob.setup()
     except Exception as e:
-        rep.viol(_exc_key('comp:%s' % _skey(spec), e, 'setup'), str(e)[:200])
+        rep.viol(_exc_key(_skey(spec), e, 'comp:setup'), str(e)[:200])
         return
     acc.count('cell:comp:' + spec['kind'])
     if use_default:
@@ -495,7 +495,9 @@ def judge_comp(case, acc):
             wrt = ['c.' + n for n in in_names]
             Jc = prob.compute_totals(of=of, wrt=wrt, return_format='dict')
         except Exception as e:
-            rep.viol(_exc_key('comp:%s' % _skey(spec), e, '%s:vec=%s:out=%s' % (tag, '1' if vec == 1 else 'n',
+            # mechanism first (surrogate kind + raising statement), calling context last: a fault inside a surrogate
+            # has the same key prefix whether it is reached directly or through the component
+            rep.viol(_exc_key(_skey(spec), e, 'comp:%s:vec=%s:out=%s' % (tag, '1' if vec == 1 else 'n',
                                                                         '1' if max(out_sizes) == 1 else 'n')), str(e)[:200])
             return False
         rep.judged = True
@@ -629,16 +631,22 @@ def _cases(tier, seed):
     return out
 
 
-N_SHARDS = {'quick': 16, 'thorough': 48}
+# Wall time of the quick tier is dominated by interpreter start-up, not by the cases (all ~230 quick cases together
+# need a few CPU-seconds): `import openmdao.api` (pulls in jax, coloring, ...) costs about 4x the import of the
+# surrogate modules alone.  Only the component part needs openmdao.api, so its cases get their own few shards and the
+# other shards never import it; the number of shards is kept small in the quick tier.
+N_SHARDS = {'quick': {'core': 6, 'comp': 2}, 'thorough': {'core': 40, 'comp': 8}}
 
 
 def shards(tier, seed):
-    n = N_SHARDS[tier]
-    return [{'tier': tier, 'seed': seed, 'part': i, 'of': n} for i in range(n)]
+    return [{'tier': tier, 'seed': seed, 'group': g, 'part': i, 'of': n}
+            for g, n in sorted(N_SHARDS[tier].items()) for i in range(n)]
 
 
 def run_shard(shard, acc):
-    for case in _cases(shard['tier'], shard['seed'])[shard['part']::shard['of']]:
+    comp = shard['group'] == 'comp'
+    mine = [c for c in _cases(shard['tier'], shard['seed']) if (c['part'] == 'comp') == comp]
+    for case in mine[shard['part']::shard['of']]:
         judge(case, acc)
 
 
